@@ -360,3 +360,42 @@ def check(run, prog, tier):
         run.ob("C05-d", "guard:%s:%s:%s" % (rel(cf.file), cf.name, gname), ok,
                "static %s set to %s; raising calls before its reset: %s; cleared on the error path: %s" % (gname, show(n["R"]), sorted(set(raising))[:6], cleared or has_ctx),
                cf.file, n.get("l"), cf.name, what="compile_file's re-entrancy flag '%s' stays set when %s raises: every later compile is refused" % (gname, sorted(set(raising))[:3]))
+
+    # ---- C05-g the limit-error state is only ever set on the way into error()
+    run.rule("C05-g", "every set of the limit-error state (set_error_state / error_state |=) is followed on all paths by a raise: the function cannot return normally with the flag set (do_catch consults the flag to decide whether an error may be caught, so a stale flag makes the next ordinary catch() fail)", 5)
+    nset = 0
+    for f in sorted(prog.functions(), key=lambda x: (x.file, x.line)):
+        if f.name in ("set_error_state", "clear_error_state"):
+            continue
+        sets = [(b, i, n) for b, i, n in f.calls("set_error_state")]
+        sets += [(b, i, n) for b, i, n in f.nodes() if n.get("k") == "Asg" and n.get("op") in ("|=", "=") and strip(n["L"]).get("k") == "Ref" and strip(n["L"]).get("n") == "error_state" and const_val(n["R"]) != 0]
+        if not sets:
+            continue
+        run.saw(f)
+        ordn = 0
+        seen_lines = set()
+        for b, i, n in sorted(sets, key=lambda x: (x[2].get("l") or 0, x[0].id)):
+            key = (n.get("l"), b.id, i)
+            if key in seen_lines:
+                continue
+            seen_lines.add(key)
+            nset += 1
+            # can the function's exit be reached from here?
+            # within the block: a noreturn call later in the same block ends the path
+            blk = f.blocks[b.id]
+            ends_here = blk.nr or any(m.get("k") == "Call" and m.get("nr") for e in blk.el[i + 1:] for m in walk(e, True))
+            reach_exit = False
+            if not ends_here:
+                reach_exit = f.exit in cfgq.reach_set(f, [s for s in blk.live_succ()])
+            # instance key without a per-function ordinal for macro-expanded sites (CHECK_STACK ...): use the enclosing label
+            label = ""
+            if f.name == "eval_instruction":
+                sg = cfgq.switch_guard(f, b.id)
+                labs = sorted({(l.get("src") or l.get("k")) for l in (sg[1] if sg else []) if l})
+                label = ":" + "/".join(labs[:1])
+            inst = "limit-flag:%s:%s%s:%d" % (rel(f.file), f.name, label, ordn)
+            ordn += 1
+            run.ob("C05-g", inst, not reach_exit, "the limit flag set at line %s is followed by a raise on every path" % n.get("l") if not reach_exit else
+                   "after the limit flag is set at line %s the function can return normally: no error is in flight but do_catch() will refuse the next catch" % n.get("l"), f.file, n.get("l"), f.name,
+                   what="%s leaves the limit-error state set without raising" % f.name)
+    run.need(nset >= 5, "sets of the limit-error state (found %d)" % nset)
